@@ -22,8 +22,8 @@ func main() {
 		}
 		fmt.Fprintf(os.Stderr, "loaded in %.1fs\n", env.LoadDur.Seconds())
 		h := os.Args[2]
-		if !strings.Contains(h, "/") {
-			h = modPath + "/" + h
+		if strings.HasPrefix(h, ".") {
+			h = modPath + h
 		} else if !strings.HasPrefix(h, modPath) {
 			h = modPath + "/" + h
 		}
